@@ -352,7 +352,7 @@ func (e *Engine) copiedPrefix(st *State, inner *Sort, src Term, off, n Term) Ter
 		return na
 	}
 	j := T("j!q", SInt)
-	st.assume(Forall([]Term{j}, Implies(And(Le(IntLit(0), j), Lt(j, n)), Eq(Select(na, j), Select(src, Add(off, j))))))
+	st.assume(Forall([]Term{j}, Implies(And(Le(IntLit(0), j), Lt(j, n)), Eq(Select(na, IX(IntLit(0), j)), Select(src, IX(off, j))))))
 	return na
 }
 
